@@ -181,7 +181,7 @@ def attach(owner: Any, name: str, *, hook: str, rec: Recorder,
             try:
                 old = snapshot(*args, **kwargs)
             except Exception as exc:  # noqa: BLE001
-                rec.inconclusive_event(f"monitor snapshot {hook} raised", repr(exc))
+                record_exception(rec, f"monitor snapshot {hook} raised", exc)
         try:
             result = func(*args, **kwargs)
         except Exception as exc:
@@ -189,14 +189,13 @@ def attach(owner: Any, name: str, *, hook: str, rec: Recorder,
                 try:
                     on_raise(old, exc, *args, **kwargs)
                 except Exception as mexc:  # noqa: BLE001
-                    rec.inconclusive_event(f"monitor on_raise {hook} raised", repr(mexc))
+                    record_exception(rec, f"monitor on_raise {hook} raised", mexc)
             raise
         if ensure is not None:
             try:
                 ensure(old, result, *args, **kwargs)
             except Exception as exc:  # noqa: BLE001
-                rec.inconclusive_event(f"monitor ensure {hook} raised",
-                                       traceback.format_exc(limit=4) + repr(exc))
+                record_exception(rec, f"monitor ensure {hook} raised", exc)
         return result
 
     wrapper.__vmon_original__ = func  # type: ignore[attr-defined]
@@ -251,7 +250,15 @@ def watchdog(seconds: float):
 def run_cases(mod: Any, cases: list[dict], rec: Recorder, ctx: dict, case_timeout: float) -> None:
     setup = getattr(mod, "setup_worker", None)
     if setup:
-        setup(rec, ctx)
+        try:
+            setup(rec, ctx)
+        except Exception as exc:  # noqa: BLE001
+            rec.current_case = {"setup_worker": True}
+            record_exception(rec, "setup_worker raised", exc)
+            rec.current_case = None
+            if _raised_in_sut(exc) is None:
+                raise
+            return
     for case in cases:
         rec.current_case = case
         t0 = time.time()
@@ -261,8 +268,9 @@ def run_cases(mod: Any, cases: list[dict], rec: Recorder, ctx: dict, case_timeou
         except CaseTimeout as exc:
             rec.inconclusive_event("watchdog", str(exc))
         except Exception as exc:  # noqa: BLE001
-            # an exception escaping the *harness* is not a verdict on ampform
-            rec.inconclusive_event("harness exception", traceback.format_exc(limit=8) + repr(exc))
+            # raised by ampform / generated code below the last harness frame: an observation about the system under
+            # test (the unchanged tree is silent here on every swept seed); anything else is a harness failure
+            record_exception(rec, "harness exception", exc)
         rec.stratum("case_seconds_decade", _decade(time.time() - t0))
         if time.time() - t0 > 30:
             rec.samples["slow_case"].append({"seconds": round(time.time() - t0, 1), "case": jsonable(case)})
@@ -270,6 +278,39 @@ def run_cases(mod: Any, cases: list[dict], rec: Recorder, ctx: dict, case_timeou
     teardown = getattr(mod, "teardown_worker", None)
     if teardown:
         teardown(rec, ctx)
+
+
+def record_exception(rec: "Recorder", context: str, exc: BaseException) -> None:
+    """An exception that reached the harness: a violation (kind ``sut_raises``) when it was raised by ampform code or
+    by NumPy code that ampform generated below the last harness frame, an inconclusive event otherwise."""
+    where = _raised_in_sut(exc)
+    if where is not None:
+        rec.check(False, "sut_raises", f"{type(exc).__name__} raised in {where} ({context}): {str(exc)[:300]}",
+                  {"traceback": "".join(traceback.format_exception(type(exc), exc, exc.__traceback__, limit=-6))},
+                  {"raised_in": where, "exception": type(exc).__name__})
+    else:
+        rec.inconclusive_event(context, "".join(traceback.format_exception(type(exc), exc, exc.__traceback__, limit=8)) + repr(exc))
+
+
+def _raised_in_sut(exc: BaseException) -> str | None:
+    """'file:function' of the deepest ampform / generated-code frame if one lies below the last harness frame."""
+    from vmon import sut  # noqa: PLC0415
+
+    src = str(sut.SRC) if hasattr(sut, "SRC") else None
+    here = os.path.dirname(os.path.abspath(__file__))
+    tb = exc.__traceback__
+    frames = []
+    while tb is not None:
+        frames.append((tb.tb_frame.f_code.co_filename, tb.tb_frame.f_code.co_name))
+        tb = tb.tb_next
+    last_harness = max((i for i, (f, _) in enumerate(frames) if os.path.abspath(f).startswith(here)), default=-1)
+    found = None
+    for f, name in frames[last_harness + 1:]:
+        if f.startswith("<lambdifygenerated"):
+            found = f"generated code:{name}"
+        elif src and os.path.abspath(f).startswith(src):
+            found = f"{os.path.relpath(os.path.abspath(f), src)}:{name}"
+    return found
 
 
 def _decade(x: float) -> str:
